@@ -110,15 +110,25 @@ def run(rec, F):
     for bi, si, s in close.stmts():
         if s["d"]["p"] and sem.place_has_field(s["d"], CQ, "state"):
             r = close.root_of(s["r"]["a"]) if s["r"]["k"] == "use" else ("?",)
-            var = lastseg(r[1]["adt"]) if r[0] == "rvalue" and r[1]["k"] == "agg" else "?"
-            gs = sem.dominating_guards(F, close, bi)
-            emp = [outc for w, d, outc in gs if sem.desc_call_name(d) == "is_empty" and sem.desc_mentions_field(d, "queue")]
-            notclosed = [outc for w, d, outc in gs if sem.desc_call_name(d) == "is_closed"]
-            want = {"ClosedEmpty": True, "Closed": False}.get(var)
-            ok = want is not None and emp == [want] and notclosed == [False]
-            rec.inst(RS, "close:state=%s" % var, ok=ok, loc=loc_of(s["sp"]))
-            if not ok:
-                rec.finding(RS, "F4.chan-close/close/%s" % var, "close(): state %s is not chosen under queue.is_empty()==%s on a not-yet-closed queue" % (var, want), loc=loc_of(s["sp"]), fn=close.path)
+            cands = []
+            if r[0] == "rvalue" and r[1]["k"] == "agg":
+                cands = [(lastseg(r[1]["adt"]), bi)]
+            elif r[0] == "local":
+                # `self.state = if self.queue.is_empty() { ClosedEmpty } else { Closed };`: one definition per branch
+                for d_ in close.defs.get(r[1], []):
+                    if d_[0] == "assign" and d_[1]["k"] == "agg":
+                        cands.append((lastseg(d_[1]["adt"]), d_[2]))
+            if not cands:
+                cands = [("?", bi)]
+            for var, vb in cands:
+                gs = sem.dominating_guards(F, close, vb) + [g for g in sem.dominating_guards(F, close, bi) if vb != bi]
+                emp = sorted(set(outc for w, d, outc in gs if sem.desc_call_name(d) == "is_empty" and sem.desc_mentions_field(d, "queue")))
+                notclosed = sorted(set(outc for w, d, outc in gs if sem.desc_call_name(d) == "is_closed"))
+                want = {"ClosedEmpty": True, "Closed": False}.get(var)
+                ok = want is not None and emp == [want] and notclosed == [False]
+                rec.inst(RS, "close:state=%s" % var, ok=ok, loc=loc_of(s["sp"]))
+                if not ok:
+                    rec.finding(RS, "F4.chan-close/close/%s" % var, "close(): state %s is not chosen under queue.is_empty()==%s on a not-yet-closed queue" % (var, want), loc=loc_of(s["sp"]), fn=close.path)
     # receive arms
     sw = None
     for b in sorted(recv.reachable):
@@ -339,25 +349,33 @@ def sync_release(rec, F):
         if sv and sv[0].endswith("ChannelQueueKind"):
             sw = (b, sv)
             break
-    if sw is None:
-        rec.anchor_lost("F4.chan-sync", "kind switch in runnable_waiter")
-        return
-    b, sv = sw
-    t = fn.blocks[b]["t"]
-    # blocks that only run for a Buffered queue (reached solely through the non-Sync edges of the kind switch)
-    sync_dst = [dst for v, dst in t["targets"] if sv[1].get(v) == "Sync"]
-    if not sync_dst:
-        listed = {sv[1].get(v) for v, _ in t["targets"]}
-        if "Sync" not in listed:
-            sync_dst = [t["otherwise"]]
-    other_dst = [dst for v, dst in t["targets"] if dst not in sync_dst] + ([t["otherwise"]] if t["otherwise"] not in sync_dst else [])
-    sync_reach = set()
-    for d_ in sync_dst:
-        sync_reach |= sem.region_from_edge(fn, d_)
     buffered_only = set()
-    for d_ in other_dst:
-        buffered_only |= sem.region_from_edge(fn, d_)
-    buffered_only -= sync_reach
+    if sw is not None:
+        b, sv = sw
+        t = fn.blocks[b]["t"]
+        # blocks that only run for a Buffered queue (reached solely through the non-Sync edges of the kind switch)
+        sync_dst = [dst for v, dst in t["targets"] if sv[1].get(v) == "Sync"]
+        if not sync_dst:
+            listed = {sv[1].get(v) for v, _ in t["targets"]}
+            if "Sync" not in listed:
+                sync_dst = [t["otherwise"]]
+        other_dst = [dst for v, dst in t["targets"] if dst not in sync_dst] + ([t["otherwise"]] if t["otherwise"] not in sync_dst else [])
+        sync_reach = set()
+        for d_ in sync_dst:
+            sync_reach |= sem.region_from_edge(fn, d_)
+        for d_ in other_dst:
+            buffered_only |= sem.region_from_edge(fn, d_)
+        buffered_only -= sync_reach
+    # without a dispatch on the kind the whole function runs for a Sync queue too
+    # a Sync queue has capacity 1 (F4.chan-cap sync:capacity=1) and never holds more than its capacity (F4.chan-cap
+    # enqueue guard): for it "not full" is "empty"
+    sync_cap1 = False
+    sy_ = q(F, "sync")
+    if sy_ is not None:
+        for _bi, _si, s_ in sy_.stmts():
+            if s_["r"]["k"] == "agg" and s_["r"]["adt"].startswith(CQ + "::"):
+                caps_ = [sem.const_int(o) for o in s_["r"]["ops"]]
+                sync_cap1 = len(caps_) > 1 and caps_[1] == 1
     clos = sem.closure_paths_in(fn)
     n = 0
     sites = []
@@ -379,7 +397,14 @@ def sync_release(rec, F):
         n += 1
         gs = sem.dominating_guards(F, fn, bi)
         ok = any(sem.desc_call_name(d) == "is_empty" and outc is True for w, d, outc in gs)
-        rec.inst(R, "send_waiters search that can run for a Sync queue is under is_empty()", ok=ok, loc=loc_of(tt["sp"]))
+        how = "is_empty()"
+        if not ok and sync_cap1:
+            for w, d, outc in gs:
+                sd = str(d)
+                if d[0] == "bin" and "'len'" in sd and "capacity" in sd and ((d[1] == "Eq" and outc is False) or (d[1] == "Ne" and outc is True) or (d[1] == "Lt" and outc is True) or (d[1] == "Ge" and outc is False)):
+                    ok = True
+                    how = "not full, and a Sync queue has capacity 1"
+        rec.inst(R, "send_waiters search that can run for a Sync queue is under is_empty()", ok=ok, loc=loc_of(tt["sp"]), note=how)
         if not ok:
             rec.finding(R, "F4.chan-sync/release-before-taken", "runnable_waiter (Sync) can hand back a parked sender while the slot still holds its value: a synchronous sender would proceed before its value has been taken", loc=loc_of(tt["sp"]), fn=fn.path)
     rec.floor(R, "send_waiters searches that can run for a Sync queue", n, 1)
